@@ -307,7 +307,13 @@ fn handle_established(
         if s.flags.ack {
             let acked = s.ack.wrapping_sub(tcb.snd_una);
             let in_flight = tcb.snd_nxt.wrapping_sub(tcb.snd_una);
-            if acked > 0 && acked <= in_flight {
+            // A go-back-N rewind pulls `snd_nxt` back to `snd_una`, so
+            // `in_flight` can be smaller than what really is on the wire
+            // (even 0 while the peer's window is closed). What bounds a
+            // valid ACK is everything we still hold: `send_buf` plus the
+            // FIN.
+            let outstanding = tcb.send_buf.len() as u32 + tcb.fin_seq.is_some() as u32;
+            if acked > 0 && acked <= outstanding {
                 // FIN (if sent) sits at `fin_seq` and consumes one seq
                 // past the data. Don't try to drain buffer bytes for
                 // the FIN's byte.
@@ -320,6 +326,10 @@ fn handle_established(
                     let _ = tcb.send_buf.split_to(data_bytes as usize);
                 }
                 tcb.snd_una = s.ack;
+                if acked > in_flight {
+                    // ACK for bytes sent before the rewind: skip them.
+                    tcb.snd_nxt = s.ack;
+                }
                 // Progress — retx machinery resets.
                 tcb.egress_since_ack = 0;
                 tcb.retx_attempts = 0;
